@@ -40,7 +40,22 @@ func init() {
 			"array-dimension-limit elements) or a Lisp condition is demanded, a dead or silent helper is attributed to the case. " +
 			"A case is non-trivial when the function got past its argument-count check (value, or a condition other than too few/too " +
 			"many arguments) / the text contains a byte with a syntactic role / format got past directive lookup; every g, k, z, d, e " +
-			"case and every u case with a mutation is",
+			"case and every u case with a mutation is. " +
+			"pl = PLACES: every function whose object implements slip.Placer (discovered at run time, with the accessors defstruct / defclass " +
+			"generate; a placer without a template is a harness error) x every storing operator (setf psetf incf decf push pushnew pop rotatef " +
+			"shiftf remf, getf of a place, addnew; setf with two pairs / one argument) x every argument position swept over the whole pool (+ the " +
+			"objects the place is valid on) x every index / size / position over {0 1 7 8 9 63 64 65 -1 2^31 2^62 2^64 10^30} (every (byte s p) over " +
+			"{0 1 7 8 9 15 16 17 63 64 65 128}^2) x new values {7 nil -1 2^64 1/2 1.5 #\\a \"s\" symbol list vector octets bit-vector, the " +
+			"object itself} (the full index x value product for the objects the place accepts; (setf place 7) at every index for the others). " +
+			"sf = STRUCTURED FORMS: every function that skips argument evaluation (the engine's list) x valid forms of it x every position of " +
+			"the form's tree to depth 5 x {missing, nil, (), symbol, number, string, keyword, t, dotted pair, one level too deep, one level too " +
+			"shallow, twice, as dotted tail, 47 syntax words (lambda-list keywords, option keywords, (quote) (function a b) (lambda) ...), a copy " +
+			"of every other subtree of the form, every pool object as literal operand}, evaluated under a budget of function evaluations (a " +
+			"mutant that loops by contract is cut off and not judged) in the helper process; + reader-level texts (backquote / comma / " +
+			"#' in wrong places). st = STREAMS: every stream-taking function (derived from the FuncDocs and names; a function without an " +
+			"operation is a harness error) x 37 start states (every kind of stream: open, at end of file, empty, written, file deleted after " +
+			"open, members closed, synonym to open / unbound / non-stream / synonym, dead with-output-to-string stream, the standard streams) x " +
+			"every sequence of one and of two operations on the same stream, in the helper process",
 		Assumptions: []string{
 			"a Go runtime fault is recognised by its message (runtime error:, interface conversion:, unhashable, nil map, makeslice, " +
 				"closed channel, math/big and strings library panics ...) on a condition manufactured by slip's catch-all (Panic.Value set), or by a raw non-condition panic value",
@@ -60,7 +75,12 @@ func init() {
 		Required: []string{"fn-value", "fn-condition", "fn-type-error", "fn-arg-count-error", "reader-value", "reader-condition", "reader-partial", "format-value", "format-condition", "catch-all-conversions",
 			"pool-classes-covered", "pool-constructors-covered", "keyed-value", "keyed-condition", "range-value", "range-condition",
 			"size-value", "size-condition", "size-template-valid", "mutating-value", "mutating-condition", "deep-reader-value",
-			"deep-reader-condition", "deep-eval-value", "deep-eval-condition", "isolated"},
+			"deep-reader-condition", "deep-eval-value", "deep-eval-condition", "isolated",
+			"placers-discovered", "place-templates-valid", "place-value", "place-condition", "place-type-error", "place-swept-accepted", "place-swept-rejected",
+			"place-value-setf", "place-value-psetf", "place-value-incf", "place-value-decf", "place-value-push", "place-value-pushnew", "place-value-pop",
+			"place-value-rotatef", "place-value-shiftf", "place-value-remf", "place-value-setf-getf", "place-value-addnew",
+			"sform-functions", "sform-templates-valid", "sform-value", "sform-condition", "sform-budget", "sform-text-cases",
+			"stream-functions-covered", "stream-states", "stream-value", "stream-condition"},
 		CaseDeadlineS: 90, // above helperWallMax (helper.go): the helper's CPU clock decides, the engine's wall watchdog is the backstop
 		Bound:         bound,
 		Selftest:      selftest,
@@ -107,6 +127,15 @@ func enumerate(tier string, emit func(string)) {
 	if only("e") {
 		enumDeepEval(tier, emit)
 	}
+	if only("P") {
+		enumPlaces(tier, emit)
+	}
+	if only("S") {
+		enumSForms(tier, emit)
+	}
+	if only("T") {
+		enumStreams(tier, emit)
+	}
 }
 
 func execCase(spec string) engine.Result {
@@ -139,6 +168,12 @@ func execCase(spec string) engine.Result {
 		return execDeepReader(spec)
 	case strings.HasPrefix(spec, "e|"):
 		return execDeepEval(spec)
+	case strings.HasPrefix(spec, "pl|"):
+		return execPlace(spec)
+	case strings.HasPrefix(spec, "sf|"):
+		return execSForm(spec)
+	case strings.HasPrefix(spec, "st|"):
+		return execStream(spec)
 	}
 	var res engine.Result
 	res.Fail("harness:bad-spec", spec)
@@ -155,8 +190,17 @@ func bound(tier string) string {
 	extra := fmt.Sprintf("; keyed: %d operations x the %d pool objects; ranges: %d templates x sequence kinds x %d^2 (start, end) pairs; sizes: %d "+
 		"templates (covering %d of the %d parameters documented as fixnum / integer) x %d values (+ %d product values on multi-hole templates); "+
 		"mutating callbacks: %d templates x container kinds x mutations x 2 results; reader depth: %d nest shapes x n in %v (open / closed) and %d "+
-		"token shapes x n in %v, 3 APIs; evaluation depth: ", len(keyedOps), np, len(rangeTemplates), len(rangeValues), len(sizeTemplates), cov, tot,
+		"token shapes x n in %v, 3 APIs", len(keyedOps), np, len(rangeTemplates), len(rangeValues), len(sizeTemplates), cov, tot,
 		len(sizeValues), len(productValues), len(mutTemplates), len(nestShapes), nestSizes(tier), len(tokenShapes), tokenSizes(tier))
+	nt, nc, ne := placeCounts(tier)
+	extra += fmt.Sprintf("; places: %d templates over the placers slip reports, %d (template, swept object) cases, at most %d evaluations "+
+		"(%d operators, index grid %d / pairs %d^2 / %d byte specs, %d new values (+%d sizes where the new value is a size)); structured forms: %d "+
+		"functions that skip argument evaluation, %d valid forms, every position to depth %d x (15 shape mutations + %d words + the other "+
+		"subtrees + the %d pool objects), %d reader-level texts; streams: %d operations (%d functions) x %d start states x (1 + %d) sequences",
+		nt, nc, ne, len(placeOps), len(placeGrid), map[bool]int{true: len(placeGrid), false: len(placeGridPair)}[tier == engine.Thorough], len(byteGrid)*len(byteGrid),
+		len(placeValues), len(placeValuesGrid)-len(placeValues), len(sfMacroNames()), sfTemplateCount(), sfDepth, len(sfWords), np, len(sfTexts),
+		len(streamOps), streamFnCount(), len(streamStates), len(streamOps))
+	extra += "; evaluation depth: "
 	if tier == engine.Thorough {
 		extra += fmt.Sprintf("%d recursive programs, %d data shapes (nested ones at depth %d) x %d operations", len(deepPrograms), len(deepData), nestedDepth(tier), len(deepOps))
 	} else {
